@@ -11,9 +11,9 @@
      - to the MODEL: every step of SLane.gstep is matched by observations the automaton accepts, between matching
        program points, and those observations read SLane's dq_state and leave SLane's new dq_state (each
        compare-exchange writes the value of the same generated body).
-   Direction: SLane's behaviours are included in the automaton's; the automaton has more (it also accepts the
-   need_override wakeup of a push onto a non-empty list, queue.c:5077-5088, which SLane does not model: the checker
-   reports how often the library takes it). *)
+   Direction: SLane's behaviours are included in the automaton's.  The need_override wakeup of a push onto a non-empty
+   list (queue.c:5077-5088), which the automaton showed the library takes and the first version of SLane lacked, is now
+   SLane.ostep + PA_oprobe / PA_owake; every recorded round replays as a run of SLane.begin / gstep / ostep. *)
 From Coq Require Import ZArith Bool List.
 From Verif Require Import Word Conc Gen_consts Gen_fields Gen_dqstate Gen_lanesites SLane SLane_proofs SLane_progress
   SLaneT SLaneT_proofs SLaneR SLaneR_proofs.
@@ -56,6 +56,13 @@ Theorem C01_slanet_gstep_tstep : forall c s t s' p,
 Proof. exact gstep_tstep. Qed.
 Print Assumptions C01_slanet_gstep_tstep.
 
+(* ... the other continuation of a push onto a non-empty list (SLane.ostep): the link store, then on to the probe *)
+Theorem C01_slanet_ostep_tstep : forall c s t s' p,
+  ostep s t = Some s' -> trel c (pcs s t) p ->
+  exists evs p', taccept c p evs = Some p' /\ trel c (pcs s' t) p' /\ state_obs c (st s) evs = Some (st s').
+Proof. exact ostep_tstep. Qed.
+Print Assumptions C01_slanet_ostep_tstep.
+
 (* ... and the entry of a call: a submission is the harness mark DVU_CALL; a worker that popped the lane has observed
    nothing of the lane yet *)
 Theorem C01_slanet_begin_tstep : forall c s t cl s',
@@ -91,8 +98,8 @@ Proof. exact demo_traces. Qed.
 Print Assumptions C01_slanet_recorded_traces.
 
 (* the global replay (Model/SLaneR.v, used by lib/props/c01_slane.py on every recorded round): the scheduler takes only
-   steps of SLane — whatever action lists, preferred order and window it is given, the state it ends in is reachable in
-   SLane (action lists without the override wakeup, valid thread ids).  A round it consumes entirely is therefore a run of
+   steps of SLane (begin / gstep / ostep) — whatever action lists, preferred order and window it is given, the state it
+   ends in is reachable in SLane (valid thread ids).  A round it consumes entirely is therefore a run of
    SLane with the recorded outcomes (was_empty, probe results, lock restarts, every dq_state value written, pop results,
    item identities), and SLane's theorems apply to the state it reports *)
 Theorem C01_slanet_replay_reach : forall rb fuel w s qs ord done,
@@ -100,9 +107,10 @@ Theorem C01_slanet_replay_reach : forall rb fuel w s qs ord done,
 Proof. exact sched_reach. Qed.
 Print Assumptions C01_slanet_replay_reach.
 
-(* non-vacuity 3: a recorded round (2 submitters, 16 items, with a DIRTY retry) is consumed entirely by the scheduler *)
+(* non-vacuity 3: a recorded round that contains the need_override continuation (SLane.ostep) is consumed entirely *)
 Theorem C01_slanet_recorded_round :
   qs_ok ex_qs = true /\ replay ex_rb 48 ex_qs ex_ord = ex_result /\
-  nth 1 ex_result 1 = 0 /\ nth 0 ex_result 0 = Z.of_nat (length ex_ord).
+  nth 1 ex_result 1 = 0 /\ nth 0 ex_result 0 = Z.of_nat (length ex_ord) /\
+  existsb (fun q => existsb (fun a => m_kind (s_act a) =? 6) (snd q)) ex_qs = true.
 Proof. exact demo_replay. Qed.
 Print Assumptions C01_slanet_recorded_round.
